@@ -184,7 +184,7 @@ pub fn gen_case(seed: u64, k: u64, tier: Tier) -> Case {
       let faulted: BTreeSet<String> = specs.iter().enumerate().filter(|(i, _)| assign[*i] != 0).map(|(_, s)| s.clone()).collect();
       let kind = (k % 3) as u8;
       (
-        BuiltCase { world, roots, bcfg: BuildCfg { kind, ..Default::default() }, unstable: (false, false, false), max_redirects: 10 },
+        BuiltCase { lock: None, world, roots, bcfg: BuildCfg { kind, ..Default::default() }, unstable: (false, false, false), max_redirects: 10 },
         faulted,
         format!("exhaustive base {} assignment {:?}", b, assign),
       )
@@ -249,7 +249,7 @@ pub fn gen_case(seed: u64, k: u64, tier: Tier) -> Case {
     }
     // but keep the faulty world's sources for non-faulted modules, so compare only modules present in both
     let mut g0 = ModuleGraph::new(graph_kind(c.bcfg.kind));
-    let c0 = BuiltCase { world: clean, roots: c.roots.clone(), bcfg: c.bcfg.clone(), unstable: c.unstable, max_redirects: c.max_redirects };
+    let c0 = BuiltCase { lock: None, world: clean, roots: c.roots.clone(), bcfg: c.bcfg.clone(), unstable: c.unstable, max_redirects: c.max_redirects };
     let _ = real_build(&c0, &mut g0, &c0.roots, &c0.bcfg.imports);
     let affected = depends_on(&graph, &faulted);
     for m in graph.modules() {
